@@ -320,13 +320,17 @@ def _related(fn_name, oblig):
 _ORACLE_CACHE = {}
 
 
-def native_oracle(pid, tier="quick", timeout=3000, extra_args=()):
-  """Runs native/<pid>.py under /venv/bin/python against /repo; returns its JSON."""
-  key = (pid, tier, tuple(extra_args))
+def native_oracle(pid, tier="quick", timeout=3000, extra_args=(), script=None):
+  """Runs native/<pid>.py (or the named script) under /venv/bin/python against /repo; returns its JSON."""
+  key = (pid, tier, tuple(extra_args), script)
   if key in _ORACLE_CACHE:
     return _ORACLE_CACHE[key]
-  script = os.path.join(VERIF, "native", pid.lower() + ".py")
-  rc, out, err = native([script, tier] + list(extra_args), timeout=timeout)
+  if script is None:
+    script = os.path.join(VERIF, "native", pid.lower() + ".py")
+    args = [script, tier] + list(extra_args)
+  else:
+    args = [os.path.join(VERIF, "native", script)] + list(extra_args)
+  rc, out, err = native(args, timeout=timeout)
   res = None
   for line in reversed(out.strip().splitlines()):
     line = line.strip()
